@@ -1,3 +1,5 @@
+import SlipVerif.Model.Flavors
 import SlipVerif.Model.Num
+import SlipVerif.Driver.Flavors
 import SlipVerif.Driver.Num
 import SlipVerif.Driver.Util
